@@ -21,7 +21,7 @@ ASSUMPTIONS = ['line-level landing points; delivery of the async exception insid
                'the child is held at the landing for at most 0.6 s; all timeouts passed to terminate are 5 s (remote_timeout too)']
 SHRINK = 'none'
 TIME_BUDGET = {'quick': 170, 'thorough': 1700}
-REQUIRED = {'quick': {'delivered': 150, 'land:target_try_body': 40, 'land:target_finally': 1, 'land:after_target': 20, 'land:handler': 3, 'idle_persistent': 10, 'terminate_after_own_end': 60, 'control_thread_held': 40},
+REQUIRED = {'quick': {'delivered': 150, 'land:target_try_body': 40, 'land:target_finally': 1, 'land:after_target': 20, 'land:handler': 3, 'idle_persistent': 10, 'terminate_after_own_end': 60, 'control_thread_held': 40, 'scenario:spin_state': 20},
             'thorough': {'delivered': 1500, 'land:target_try_body': 300, 'land:target_finally': 5, 'land:after_target': 200, 'land:handler': 30}}
 
 _src = inspect.getsource(vtargets).splitlines()
@@ -67,8 +67,14 @@ def _line_strategy():
     held = st.fixed_dictionaries({
         'kind': st.just('p_process'), 'scenario': st.just('persist'), 'items': st.lists(st.sampled_from([1, 2]), max_size=2),
         'close': st.just(False), 'pipe': st.just('default'), 'settle': st.sampled_from([0.05, 0.3]),
-        'inject': st.just({'mode': 'terminate_now'}), 'ctrl': st.fixed_dictionaries({'mode': st.just('pause'), 'n_raw': st.integers(0, 40), 'hold': st.sampled_from([0.2, 0.5])})})
-    return st.one_of(one, one, one, pers, pers, idle, fin, held)
+        'inject': st.just({'mode': 'terminate_now'}), 'ctrl': st.fixed_dictionaries({'mode': st.just('pause'), 'n_raw': st.integers(0, 40), 'hold': st.sampled_from([0.2, 0.5])}),
+        'term': st.sampled_from([{'timeout': 5, 'force': False}, {'timeout': None, 'force': False}, {'timeout': 5, 'force': True}])})
+    # a remote worker in an endless target whose user_state cannot be sent / cannot be rebuilt by the parent: the outcome and the state
+    # travel as two messages, losing the second must not cost the first
+    ust = st.fixed_dictionaries({
+        'kind': st.just('remote'), 'scenario': st.sampled_from(['spin_state:lock', 'spin_state:needsargs']), 'items': st.just([]), 'close': st.just(False),
+        'pipe': st.just('default'), 'settle': st.sampled_from([0.2, 0.4]), 'inject': st.just({'mode': 'terminate_now'})})
+    return st.one_of(one, one, one, pers, pers, idle, fin, held, ust)
 
 
 def exhaustive(tier, shard, nshards):
@@ -96,7 +102,7 @@ def own_outcome(case):
         return [(False, IC.enc(('done', case.get('rounds', 3))), None)]
     if sc == 'raise_own':
         return [(True, None, {'exc': 'ValueError', 'args': repr(('own', 'x', 2))})]
-    if sc == 'spin_finally':
+    if sc == 'spin_finally' or sc.startswith('spin_state:'):
         return []       # never ends on its own
     items = case.get('items', [])
     pre = IC.expected_items(items)
@@ -171,7 +177,7 @@ def run_case(case, ctx):
     reached = obs.get('reached')
     region = IC.region_of(reached) if inj['mode'] == 'terminate' else ('finished:' if inj['mode'] == 'terminate_finished' else 'idle:') + kind
     site = region
-    out.label('kind:' + kind, 'scenario:' + case['scenario'], 'granularity:' + inj.get('granularity', 'line'))
+    out.label('kind:' + kind, 'scenario:' + case['scenario'].split(':')[0], 'granularity:' + inj.get('granularity', 'line'))
     in_try_body = in_target = False
     if reached:
         parts = region.split(':')[-1].split('>')
